@@ -213,8 +213,13 @@ KeysAgree(e) == /\ {e.keys[i] : i \in 1..Len(e.keys)} = {k \in K : e.vals[k] # N
 \* the engine is abandoned here (every goroutine parked or blocked); the image the run continues on keeps
 \* every written byte (process death) or, per file named in cuts, its first n bytes (power failure)
 TFault ==
-  /\ Is("fault") /\ ~flt.on /\ l' = l + 1
-  /\ LET e == E
+  /\ Is("fault") /\ l' = l + 1
+  /\ IF flt.on THEN
+       \* a second process death before the recovery from the first fault was complete (during adoption): what
+       \* may have been lost is still decided by the first fault
+       flt' = flt /\ UNCHANGED <<written, synced, wends>>
+     ELSE
+     LET e == E
          C == {e.cuts[i] : i \in 1..Len(e.cuts)}
          keep(f) == IF \E c \in C : c.f = f THEN MinI(written[f], (CHOOSE c \in C : c.f = f).n) ELSE written[f]
          torn == \E c \in C : c.f \in DOMAIN written /\ c.n < written[c.f] /\ c.n \notin Get(wends, c.f, {0})
